@@ -121,6 +121,19 @@ def judge_trusted(case, impl, model):
                                        errs=("TypeError", "ValueError", "InvalidStructureErr")))
         if m_reg:
             msgs.append(m_reg)
+    # class trees with simple mappers: the regular path as the model describes it (Spec/TrustedSafe.deserializeMapped:
+    # every class-level object read through its class's own mapper), where no named deviation of the real regular path
+    # applies (an enclosing TO_CAMELCASE / TO_LOWERCASE reaching nested classes, chained parent mappers, field-name fallback)
+    mapped_scope = (not mapper_free and in_scope and not offpath and model.get("simpleMappers") and not model.get("cascade")
+                    and model.get("tsafe")       # (untrV follows the shapes of the proved region: no Map / Tuple of classes)
+                    and not model.get("baseChain") and "regularMapped" in model
+                    and not _uses_unmapped_names(cls, case["doc"], case.get("mapperSpec") or {})
+                    and _extras_quiet(cls, case["doc"], case.get("mapperSpec") or {}, impl.get("opts_actual") or {}))
+    if mapped_scope and not _has_set_of_struct(cls):
+        m_reg = _loose_err(SD.res_diff("regular deserialize (with mappers)", model["regularMapped"], reg,
+                                       errs=("TypeError", "ValueError", "InvalidStructureErr")))
+        if m_reg:
+            msgs.append(m_reg)
     m_tru = None
     eligible = model.get("verdict") in ("flat", "nested")
     set_of_struct = _has_set_of_struct(cls)   # CPython dedups by hash (= str(instance)), the model by ==  (C11)
@@ -189,7 +202,8 @@ def judge_trusted(case, impl, model):
                     tag_list.append("mapper:cascade")
                 if not mapper_free and _uses_unmapped_names(cls, case["doc"], case.get("mapperSpec") or {}):
                     tag_list.append("mapper:fallback")
-                in_region = bool(mapper_free and model.get("tsafe") and model.get("plain"))
+                in_region = bool((mapper_free and model.get("tsafe") and model.get("plain"))
+                                 or (mapped_scope and model.get("tsafe") and model.get("plainMapped")))
                 explained = m_tru is None and (m_reg is None)
                 key = attribute(what, in_region, explained, tag_list)
                 fails.append((key, f"eligible class ({v}), document accepted by the regular path, but {what}: {detail}; "
@@ -200,6 +214,10 @@ def judge_trusted(case, impl, model):
             if not ("ok" in model.get("trusted", {}) and model.get("eqv") is True
                     and json.dumps(model.get("serX")) == json.dumps(model.get("serY"))):
                 msgs.append("model violates its own theorem inside the proved region")
+        if (not mapper_free and model.get("simpleMappers") and model.get("tsafe") and model.get("plainMapped")
+                and eligible and "ok" in model.get("regularMapped", {})):
+            if not ("ok" in model.get("trusted", {}) and model.get("eqvMapped") is True and model.get("serSameMapped") is True):
+                msgs.append("model violates trusted_mapper_equiv_partial inside the proved region")
     return ("; ".join(msgs)[:1500] if msgs else None), fails
 
 
@@ -244,6 +262,34 @@ def _uses_unmapped_names(d, doc, table):
     if k == "anyOf":
         return any(_uses_unmapped_names(o, doc, table) for o in d["fields"])
     return False
+
+
+def _extras_quiet(d, doc, table, opts):
+    """no class-level object of the document has a key the regular path treats as undeclared: with mappers it looks at
+    the ORIGINAL keys (a renamed field's key is kept as an attribute / refused as an unexpected argument - part of
+    finding dropped:undeclared-keys), and a class with TO_CAMELCASE / TO_LOWERCASE switches keep_undefined off"""
+    if not isinstance(d, dict) or not isinstance(doc, dict):
+        return True
+    k = d.get("k")
+    if k == "struct" and "m" in doc and not d.get("inline"):
+        m = table.get(d["name"])
+        fd = dict((n, f) for n, f in d["fields"])
+        active = bool(opts.get("keepUndefined", True)) and (bool(d.get("addl", True)) or not opts.get("ignoreInvalidAddl", True))
+        keys = {S.map_key(m, n): n for n in fd}
+        for kk, v in doc["m"]:
+            if active and kk not in fd:
+                return False
+            sub = fd.get(keys.get(kk, kk))
+            if sub is not None and not _extras_quiet(sub, v, table, opts):
+                return False
+        return True
+    if k in ("seqOf", "setOf", "tupleOf") and "l" in doc:
+        return all(_extras_quiet(d["item"], x, table, opts) for x in doc["l"])
+    if k == "mapOf" and "m" in doc:
+        return all(_extras_quiet(d["val"], v, table, opts) for _, v in doc["m"])
+    if k == "anyOf":
+        return all(_extras_quiet(o, doc, table, opts) for o in d["fields"])
+    return True
 
 
 def _loose_err(msg):
